@@ -6,7 +6,7 @@
     PublisherConfig, every answer script of the wrapped publisher, every sequence of calls over a
     heap of (possibly re-published) objects, every emit/Ack/Nack/Close sequence, every sequence of
     handler outcomes. *)
-From WM Require Import Base.Prelude Message.Model Handler.RouterHandle Decor.RouterMetrics Decor.Model Decor.Monitor Decor.Heap Decor.Proofs Decor.SubProofs Decor.SubAccept Decor.HeapProofs Decor.HeapRefine Decor.HeapCount.
+From WM Require Import Base.Prelude Message.Model Handler.RouterHandle Decor.RouterMetrics Decor.Model Decor.Monitor Decor.Heap Decor.Proofs Decor.SubProofs Decor.SubAccept Decor.HeapProofs Decor.HeapRefine Decor.HeapCount Decor.MwStack Decor.MwStackProofs.
 
 (** ** publisher decorators are transparent *)
 
@@ -349,7 +349,28 @@ Proof. exact mw_counted_layers. Qed.
 (** the pinned code recorded a panicking handler as a success (D11, repaired) *)
 Theorem C20_handler_panic_refuted : exists calls l, hcount l (run_mw false 1 calls) <> hspec l calls.
 Proof. exact mw_panic_refuted. Qed.
-(** the middleware applied twice counts every invocation twice (known finding) *)
+(** the middleware in a handler chain (Decor/MwStack.v: applications LM and Retry layers LR n in any
+    order).  Repaired middleware (per-invocation mark): any chain behaves exactly like the chain with
+    every application INSIDE another one removed, under the pinned semantics of a single application —
+    applying the middleware again is a no-op; Retry outside, between or inside is unaffected *)
+Theorem C20_handler_chain_idempotent : forall h st script,
+  heval true st false h script = heval false (erase_inner false st) false h script.
+Proof. exact heval_idempotent. Qed.
+Theorem C20_handler_chain_runs_idempotent : forall h st top script,
+  hrun true st h top script = hrun false (erase_inner false st) h top script.
+Proof. exact hrun_idempotent. Qed.
+(** k applications, Retry anywhere between them: exactly ONE observation per invocation of the
+    chain, labelled with the outcome of that invocation *)
+Theorem C20_handler_chain_counted_once : forall h st script,
+  snd (heval true (LM :: st) false h script)
+  = [(h, success_label true (fst (fst (heval true st true h script))))].
+Proof. exact heval_once. Qed.
+(** the pinned middleware applied twice counted twice (refuted; repaired by fix c7c0c5d) *)
+Theorem C20_handler_chain_twice_refuted :
+  snd (heval false [LM; LM] false 5%N [HOk]) = [(5%N, true); (5%N, true)].
+Proof. exact heval_pinned_twice. Qed.
+
+(** the flat model of the pinned middleware: applied twice counts every invocation twice *)
 Theorem C20_handler_twice_refuted : exists calls l, hcount l (run_mw true 2 calls) <> hspec l calls.
 Proof. exact mw_twice_refuted. Qed.
 
@@ -404,6 +425,10 @@ Print Assumptions C20_handler_acceptor_sound.
 Print Assumptions C20_handler_layers.
 Print Assumptions C20_handler_panic_refuted.
 Print Assumptions C20_handler_twice_refuted.
+Print Assumptions C20_handler_chain_idempotent.
+Print Assumptions C20_handler_chain_runs_idempotent.
+Print Assumptions C20_handler_chain_counted_once.
+Print Assumptions C20_handler_chain_twice_refuted.
 
 (** non-vacuity: metrics twice around a delay layer around a transform; a batch of two — the
     first already carries a delay, the second gets the generator's; one call of the wrapped
@@ -448,3 +473,12 @@ Example C20_witness_duplicate :
   map pm_trail (ho_heap o) = [[11%N; 11%N]] /\ map pm_for (ho_heap o) = [MDur 3]
   /\ ho_ev o = [EvGen 6%N 0%N; EvInner 6%N (hreads (ho_heap o) [0; 0])] /\ ho_res o = None.
 Proof. vm_compute. repeat split. Qed.
+
+(** Retry outside two applications: every attempt is an invocation and is observed once; Retry
+    between them: the outer application observes the whole (retried) invocation once *)
+Example C20_witness_retry_outside :
+  snd (heval true [LR 2; LM; LM] false 5%N [HErr; HErr; HOk]) = [(5%N, false); (5%N, false); (5%N, true)].
+Proof. exact heval_retry_outside. Qed.
+Example C20_witness_retry_between :
+  snd (heval true [LM; LR 2; LM] false 5%N [HErr; HErr; HOk]) = [(5%N, true)].
+Proof. exact heval_retry_between. Qed.
